@@ -217,7 +217,7 @@ def one(binary, rec, idx, seed, work, pem):
     sinks = {}
     try:
         up = False
-        for _ in range(100):
+        for _ in range(300):
             if p.poll() is not None:
                 break
             if held is not None:
